@@ -16,10 +16,23 @@
    The per-symbol agreement of formatter and parser (all 19 symbols, every width) is C12_date_symbols / C12_time_symbols.
    The same for the Date type (patterns with a full date; time symbols are literal text there) and for the Time type
    (full time of day and a zone): C12_date_partial, C12_time_partial.
-   NOT PROVED (checked by the differential run only), hence the suffix _partial: patterns that carry only part of a date
-   or of a time of day, or no zone (the defaults 0001-01-01, 00:00:00, UTC of the property's last sentence). *)
+   Partial patterns (PartialTrip.v, PartialTripG.v, PartialTypes.v) - C12_datetime_any, C12_date_any, C12_time_any: the
+   pattern may carry ANY part of a date, ANY part of a time of day, and a zone or none.  The hypotheses say which patterns
+   determine their own text:
+     - month, day of month and day of year are read relative to a year, so the pattern carries the year when it carries
+       one of them (without it 29 February and day 366 cannot be read back into the default year 0001);
+     - era, quarter, week and weekday are written but never read back, so they stand next to a full date;
+     - noon / midnight (b) depend on hour, minute and second, so they stand next to all three;
+     - at most one kind of fraction field (as before);
+     - the value with the defaults filled in is representable (it can fall outside the range only in the first and last
+       representable year, e.g. yyyy alone on a date in the year -5879610, whose 1 January does not exist).
+   Conclusion: parse(format(v, p), p) is Ok; its offset is the value's if p has a zone field and UTC otherwise; its local
+   date is the day of year's date if p has D, else year/month/day with 1 for what p lacks (partial_day); its local time of
+   day is hour (24-hour field, else 12-hour field + marker, each 0 when absent), minute, second and the one fraction
+   field, 0 for what p lacks (partial_clock); it is a valid value; and formatting it with p reproduces the same text.
+   The old names *_partial are kept for the full-pattern theorems, which add: same instant, same offset. *)
 From Astro Require Import Base Text CalSpec DateModel TimeModel ApiModel InstantSpec FormatModel ParseModel PatternSpec ValueFields
-  TextProofs PatternProofs FieldProofs RoundTrip.
+  TextProofs PatternProofs FieldProofs RoundTrip PartialTrip PartialTripG PartialTypes.
 
 Theorem C12_datetime_partial : forall now v items sel, Inv_dt v /\ inst_in_range (local_instant v) -> swf None items = true ->
   let L := local_instant v in let d := L / NANOS_PER_DAY in let n := L mod NANOS_PER_DAY in let off := dt_off v in
@@ -59,6 +72,56 @@ Theorem C12_time_partial : forall t items sel, Inv_tm t -> swf None items = true
     tm_off t' = off /\ (tm_nanos t' + off * NANOS_PER_SEC) mod NANOS_PER_DAY = ln / prec_unit sel * prec_unit sel /\ Inv_tm t' /\
     time_format t' (unparse items) = Ok txt.
 Proof. exact time_roundtrip. Qed.
+
+(* ---------- any part of a date, of a time of day, with or without a zone ---------- *)
+Theorem C12_datetime_any : forall now v items sel, Valid_dt v -> swf None items = true ->
+  let L := local_instant v in let d := L / NANOS_PER_DAY in let n := L mod NANOS_PER_DAY in let off := dt_off v in
+  let hs := has d n off items in
+  fits_chain d off (fields_of_day d n off) items [] ->
+  (hs PMonth = true \/ hs PDayOfMonth = true \/ hs PDayOfYear = true -> hs PYear = true) ->
+  (forall c, sym_in items c -> c = 71 \/ c = 113 \/ c = 119 \/ c = 101 -> full_date d n off items) ->
+  (sym_in items 98 -> (hs PHour = true \/ hs PPeriodHour = true) /\ hs PMinute = true /\ hs PSecond = true) ->
+  match sel with Some s => is_sub s = true | None => True end ->
+  (forall u, is_sub u = true -> hs u = match sel with Some s => punit_eqb s u | None => false end) ->
+  let d' := partial_day d n off items in let n' := partial_clock d n off items sel in let off' := partial_off d n off items in
+  in_i32 d' -> inst_in_range (d' * NANOS_PER_DAY + n' - off' * NANOS_PER_SEC) ->
+  exists txt v', dt_format v (unparse items) = Ok txt /\ dt_parse now txt (unparse items) = Ok v' /\
+    dt_off v' = off' /\ local_instant v' = d' * NANOS_PER_DAY + n' /\ Valid_dt v' /\
+    dt_format v' (unparse items) = Ok txt.
+Proof. exact dt_roundtrip_partial. Qed.
+Theorem C12_date_any : forall now d items, in_i32 d -> swf None items = true ->
+  fits_chain_k 0 d 0 (fields_of_day d 0 0) items [] ->
+  let ex := item_expected_k 0 d 0 0 in let hs := has_g items ex in
+  (hs PMonth = true \/ hs PDayOfMonth = true \/ hs PDayOfYear = true -> hs PYear = true) ->
+  (forall c, sym_in_g items c -> is_date_sym c = true -> c = 71 \/ c = 113 \/ c = 119 \/ c = 101 -> full_date_g items ex) ->
+  let d' := partial_day_g d items ex in in_i32 d' ->
+  exists txt, date_format d (unparse items) = Ok txt /\ date_parse now txt (unparse items) = Ok d' /\ date_format d' (unparse items) = Ok txt.
+Proof. exact date_roundtrip_partial. Qed.
+Theorem C12_time_any : forall t items sel, Inv_tm t -> swf None items = true ->
+  let off := tm_off t in let ln := (tm_nanos t + off * NANOS_PER_SEC) mod NANOS_PER_DAY in
+  fits_chain_k 1 0 off (fields_of_day 0 ln off) items [] ->
+  let ex := item_expected_k 1 0 ln off in let hs := has_g items ex in
+  (sym_in_g items 98 -> (hs PHour = true \/ hs PPeriodHour = true) /\ hs PMinute = true /\ hs PSecond = true) ->
+  match sel with Some s => is_sub s = true | None => True end ->
+  (forall u, is_sub u = true -> hs u = match sel with Some s => punit_eqb s u | None => false end) ->
+  let n' := partial_clock_g ln items ex sel in let off' := partial_off_g off items ex in
+  exists txt t', time_format t (unparse items) = Ok txt /\ time_parse txt (unparse items) = Ok t' /\
+    tm_off t' = off' /\ (tm_nanos t' + off' * NANOS_PER_SEC) mod NANOS_PER_DAY = n' /\ Inv_tm t' /\
+    time_format t' (unparse items) = Ok txt.
+Proof. exact time_roundtrip_partial. Qed.
+(* non-vacuity: yyyy-MM HH:mm on 2022-05-02T14:00:20.123456789 at -00:30 is written "2022-05 14:00" and read back as
+   2022-05-01T14:00:00 UTC *)
+Example C12_any_nonvacuous :
+  let L := local_instant px_v in let d := L / NANOS_PER_DAY in let n := L mod NANOS_PER_DAY in let off := dt_off px_v in
+  let hs := has d n off px_items in
+  Valid_dt px_v /\ swf None px_items = true /\ fits_chain d off (fields_of_day d n off) px_items [] /\
+  (hs PMonth = true \/ hs PDayOfMonth = true \/ hs PDayOfYear = true -> hs PYear = true) /\
+  (forall c, sym_in px_items c -> c = 71 \/ c = 113 \/ c = 119 \/ c = 101 -> full_date d n off px_items) /\
+  (sym_in px_items 98 -> (hs PHour = true \/ hs PPeriodHour = true) /\ hs PMinute = true /\ hs PSecond = true) /\
+  (forall u, is_sub u = true -> hs u = false) /\
+  partial_day d n off px_items = 738275 /\ partial_clock d n off px_items None = 50400000000000 /\ partial_off d n off px_items = 0 /\
+  render 2 (fields_of_day d n off) px_items = [50;48;50;50;45;48;53;32;49;52;58;48;48].
+Proof. exact partial_example. Qed.
 
 (* formatter and parser agree on every symbol, whatever the pattern around it *)
 Theorem C12_date_symbols : forall now d c w rest, in_i32 d -> is_date_sym c = true -> date_field_ok d c w -> field_delim 0 c w rest ->
@@ -101,6 +164,9 @@ Qed.
 Print Assumptions C12_datetime_partial.
 Print Assumptions C12_date_partial.
 Print Assumptions C12_time_partial.
+Print Assumptions C12_datetime_any.
+Print Assumptions C12_date_any.
+Print Assumptions C12_time_any.
 Print Assumptions C12_date_symbols.
 Print Assumptions C12_time_symbols.
 Print Assumptions C12_item.
